@@ -135,6 +135,11 @@ func (p *Program) LdLo(arg uint32) {
 	p.instructions = append(p.instructions, bpf.LoadAbsolute{Off: offset, Size: sizeOfUint32})
 }
 
+// LdNr inserts an instruction to load the syscall number.
+func (p *Program) LdNr() {
+	p.instructions = append(p.instructions, bpf.LoadAbsolute{Off: syscallNumOffset, Size: sizeOfUint32})
+}
+
 // NewLabel creates a new label. It must be used with SetLabel.
 func (p *Program) NewLabel() Label {
 	p.nextLabel++
